@@ -133,6 +133,10 @@ type Kernel struct {
 
 	pool *PoolSim
 
+	// MuteAuto makes the yields inserted by tools/autoyield (sites "auto:…")
+	// no-ops for this run.
+	MuteAuto bool
+
 	// AfterDrain, if set, is called on the scheduler goroutine after the
 	// notes of a step have been processed (end-of-step invariants).
 	AfterDrain func()
@@ -255,10 +259,8 @@ func (k *Kernel) taskMain(t *Task, f func()) {
 	n := &note{exit: true, task: t}
 	defer func() {
 		if v := recover(); v != nil {
-			if _, ok := v.(abortSentinel); !ok {
-				n.panicVal = v
-				n.panicStack = string(debug.Stack())
-			}
+			n.panicVal = v
+			n.panicStack = string(debug.Stack())
 		}
 		n.goid = goid()
 		raceReleaseMerge(unsafe.Pointer(&k.token))
@@ -293,7 +295,12 @@ func (k *Kernel) park(n *note) any {
 	r := <-n.reply
 	raceEnable()
 	if r.abort {
-		panic(abortSentinel{})
+		// End of the run: terminate this goroutine.  Goexit runs the deferred
+		// calls (unlocking mutexes, posting the exit note) but is not a panic,
+		// so neither a recover in the code under test can swallow it nor can
+		// it crash the process in a goroutine that has no recover (goroutines
+		// started by the code under test).
+		runtime.Goexit()
 	}
 
 	return r.val
@@ -327,6 +334,9 @@ func (k *Kernel) Report(class, site, msg string) {
 func HookPoint(site string, mu *sync.Mutex) {
 	k := loadCurrent()
 	if k == nil {
+		return
+	}
+	if k.MuteAuto && len(site) > 5 && site[:5] == "auto:" {
 		return
 	}
 	k.park(&note{o: Opts{Site: site, Mu: mu}})
@@ -638,8 +648,8 @@ func (k *Kernel) Tasks() []*Task { return k.tasks }
 func (t *Task) Exited() bool { return t.state == stExited }
 
 // Finish tears the run down: every parked task is resumed with an abort
-// (its yield panics with a sentinel that the task wrapper recovers) until no
-// task is parked any more.  Tasks blocked inside the code under test are left
+// (its yield ends the goroutine with runtime.Goexit, running its deferred
+// calls) until no task is parked any more.  Tasks blocked inside the code under test are left
 // behind; the bubble runner deals with them.  After Finish the hooks are
 // no-ops again.
 func (k *Kernel) Finish() {
@@ -725,7 +735,8 @@ func splitLines(s string) (lines []string) {
 }
 
 // IsAbort reports whether a recovered panic value is the scheduler's abort
-// sentinel; workload code that recovers panics must re-panic it.
+// signal.  Tasks are now ended with runtime.Goexit, which no recover sees, so
+// this is always false; it is kept for the workloads' recover helpers.
 func IsAbort(v any) bool {
 	_, ok := v.(abortSentinel)
 
